@@ -266,6 +266,64 @@ func C07(c *fw.Ctx) {
 			}
 		}
 	}
+	// function values that outlive the scopes they were created in: a function declared inside an inner
+	// construct nested in an outer one (each one of block / if / for / while / function body) escapes through
+	// an outer variable, an outer array or a return value and is called after both have ended -- at once,
+	// after other scopes have come and gone, from inside a new scope, twice
+	{
+		id, num := model.Id, model.Num
+		kinds := []string{"block", "if", "for", "while", "function"}
+		wrapK := func(k string, tag string, body []*model.N) []*model.N {
+			switch k {
+			case "block":
+				return []*model.N{model.Block(body...)}
+			case "if":
+				return []*model.N{model.If(model.Bool(true), model.Block(body...), nil)}
+			case "for":
+				return []*model.N{model.For(model.Var("i"+tag, num(0)), model.Bin("<", id("i"+tag), num(2)), model.Asg("i"+tag, model.Bin("+", id("i"+tag), num(1))), model.Block(body...))}
+			case "while":
+				return []*model.N{model.Var("w"+tag, num(0)), model.While(model.Bin("<", id("w"+tag), num(2)), model.Block(append([]*model.N{model.ExprS(model.Asg("w"+tag, model.Bin("+", id("w"+tag), num(1))))}, body...)...))}
+			}
+			return []*model.N{model.Fun("fn"+tag, []string{"p" + tag}, body...), model.ExprS(model.CallN("fn"+tag, num(3)))}
+		}
+		for _, outer := range kinds {
+			for _, inner := range kinds {
+				for esc := 0; esc < 2; esc++ {
+					for after := 0; after < 4; after++ {
+						if !c.Mine() {
+							continue
+						}
+						store := model.ExprS(model.Asg("keep", id("made")))
+						if esc == 1 {
+							store = model.ExprS(model.Asg("kept", model.CallN(model.BiAppend, id("kept"), id("made"))))
+						}
+						innerBody := []*model.N{model.Var("loc", num(10)),
+							model.Fun("made", nil, model.ExprS(model.Asg("loc", model.Bin("+", id("loc"), num(1)))), model.Return(model.Bin("+", id("loc"), id("base")))), store}
+						outerBody := append([]*model.N{model.Var("base", num(100))}, wrapK(inner, "b", innerBody)...)
+						prog := []*model.N{model.Var("keep", model.Nil()), model.Var("kept", model.Arr())}
+						prog = append(prog, wrapK(outer, "a", outerBody)...)
+						use := func() *model.N {
+							if esc == 1 {
+								return model.Print(model.Call(model.Idx(id("kept"), num(0))))
+							}
+							return model.Print(model.CallN("keep"))
+						}
+						switch after {
+						case 0:
+							prog = append(prog, use())
+						case 1:
+							prog = append(prog, model.Block(model.Var("x1", num(1)), model.Block(model.Var("x2", num(2)))), model.Fun("other", []string{"q"}, model.Return(id("q"))), model.ExprS(model.CallN("other", num(1))), use())
+						case 2:
+							prog = append(prog, model.For(model.Var("z", num(0)), model.Bin("<", id("z"), num(2)), model.Asg("z", model.Bin("+", id("z"), num(1))), model.Block(model.Block(use()))))
+						case 3:
+							prog = append(prog, use(), use(), model.Fun("again", nil, model.Block(use())), model.ExprS(model.CallN("again")))
+						}
+						sane(c, model.Render(parenAll(prog)), "", "escaping-function|"+outer+"|"+inner, false)
+					}
+				}
+			}
+		}
+	}
 	// names and expressions quoted by diagnostics: every fault form that mentions a name or prints an
 	// expression, with names of every length 1..70 and 100/200/300 over three alphabets (ASCII, Bangla,
 	// Bangla with combining marks) and receiver chains of 1..8 links
